@@ -19,8 +19,10 @@ import (
 
 type pv struct {
 	isBool bool
+	isStr  bool
 	i      int64
 	b      bool
+	s      string
 }
 
 func truncTo(t types.Type, x int64) int64 {
@@ -63,10 +65,12 @@ func pevalValue(x ssa.Value, env map[ssa.Value]pv, depth int) (pv, bool) {
 			return pv{i: n}, ok
 		case constant.Bool:
 			return pv{isBool: true, b: constant.BoolVal(t.Value)}, true
+		case constant.String:
+			return pv{isStr: true, s: constant.StringVal(t.Value)}, true
 		}
 	case *ssa.Convert:
 		a, ok := pevalValue(t.X, env, depth+1)
-		if !ok || a.isBool || !isIntegerT(t.Type()) || !isIntegerT(t.X.Type()) {
+		if !ok || a.isBool || a.isStr || !isIntegerT(t.Type()) || !isIntegerT(t.X.Type()) {
 			return pv{}, false
 		}
 		return pv{i: truncTo(t.Type(), a.i)}, true
@@ -83,14 +87,25 @@ func pevalValue(x ssa.Value, env map[ssa.Value]pv, depth int) (pv, bool) {
 				return pv{isBool: true, b: !a.b}, true
 			}
 		case token.SUB:
-			if !a.isBool {
+			if !a.isBool && !a.isStr {
 				return pv{i: truncTo(t.Type(), -a.i)}, true
 			}
 		}
 	case *ssa.BinOp:
 		a, ok1 := pevalValue(t.X, env, depth+1)
 		b, ok2 := pevalValue(t.Y, env, depth+1)
-		if !ok1 || !ok2 || a.isBool != b.isBool {
+		if !ok1 || !ok2 || a.isBool != b.isBool || a.isStr != b.isStr {
+			return pv{}, false
+		}
+		if a.isStr {
+			switch t.Op {
+			case token.EQL:
+				return pv{isBool: true, b: a.s == b.s}, true
+			case token.NEQ:
+				return pv{isBool: true, b: a.s != b.s}, true
+			case token.ADD:
+				return pv{isStr: true, s: a.s + b.s}, true
+			}
 			return pv{}, false
 		}
 		if a.isBool {
@@ -163,6 +178,12 @@ type pevalArrival struct {
 // and returns the ways the walk can arrive at the first phi accepted by want; reachedBack reports
 // that some path came back to the starting block (or left the function) without meeting one.
 func pevalPhi(from ssa.Instruction, env0 map[ssa.Value]pv, want func(*ssa.Phi) bool) (arr []pevalArrival, reachedBack bool, ok bool) {
+	return pevalWalk(from, env0, want, nil)
+}
+
+// pevalWalk is pevalPhi with a callback for every block the walk enters (the starting block
+// included), called with what is known on that path.
+func pevalWalk(from ssa.Instruction, env0 map[ssa.Value]pv, want func(*ssa.Phi) bool, visit func(b *ssa.BasicBlock, env map[ssa.Value]pv)) (arr []pevalArrival, reachedBack bool, ok bool) {
 	start := from.Block()
 	steps := 0
 	ok = true
@@ -201,7 +222,7 @@ func pevalPhi(from ssa.Instruction, env0 map[ssa.Value]pv, want func(*ssa.Phi) b
 				if pi < 0 {
 					continue
 				}
-				if want(ph) {
+				if want != nil && want(ph) {
 					arr = append(arr, pevalArrival{edge: ph.Edges[pi], env: f.env, pred: f.pred})
 					return
 				}
@@ -212,6 +233,9 @@ func pevalPhi(from ssa.Instruction, env0 map[ssa.Value]pv, want func(*ssa.Phi) b
 			for k, v := range newEnv {
 				f.env[k] = v
 			}
+		}
+		if visit != nil {
+			visit(b, f.env)
 		}
 		last := b.Instrs[len(b.Instrs)-1]
 		switch t := last.(type) {
